@@ -119,67 +119,77 @@ Theorem cogroup_out_type_spec U ss :
   Forall prefix_in_range ss -> out_type_correct (cogroup_check U ss) (cogroup_schema U ss).
 Proof. intro H. apply (decided_correct _ _ _ (cogroup_schema_b_iff U ss) (cogroup_decided U ss H)). Qed.
 
-(* ---------------------------------------------------------------- non-variadic functions *)
-Theorem fold_iff_schema U s f :
-  fn_variadic f = false -> ctor_correct (fold_check U s f) (fold_schema U s f).
-Proof. intro H. apply (decided_correct _ _ _ (fold_schema_b_iff U s f) (fold_decided U s f H)). Qed.
-Theorem fold_out_type_spec U s f :
-  fn_variadic f = false -> out_type_correct (fold_check U s f) (fold_schema U s f).
-Proof. intro H. apply (decided_correct _ _ _ (fold_schema_b_iff U s f) (fold_decided U s f H)). Qed.
+(* ---------------------------------------------------------------- exact-form constructors
+   For every combination R of repairs: the theorem holds where the repair is in
+   or the input is outside the region the repair is about.  For the code as it
+   is now (current_code: all three repairs in) it is unconditional. *)
+Theorem fold_iff_schema_any R U s f :
+  variadic_ok R f -> ctor_correct (fold_check_gen R U s f) (fold_schema U s f).
+Proof. intro H. apply (decided_correct _ _ _ (fold_schema_b_iff U s f) (fold_decided R U s f H)). Qed.
+Theorem fold_out_type_spec_any R U s f :
+  variadic_ok R f -> out_type_correct (fold_check_gen R U s f) (fold_schema U s f).
+Proof. intro H. apply (decided_correct _ _ _ (fold_schema_b_iff U s f) (fold_decided R U s f H)). Qed.
+Theorem fold_iff_schema U s f : ctor_correct (fold_check U s f) (fold_schema U s f).
+Proof. exact (fold_iff_schema_any current_code U s f (or_introl eq_refl)). Qed.
+Theorem fold_out_type_spec U s f : out_type_correct (fold_check U s f) (fold_schema U s f).
+Proof. exact (fold_out_type_spec_any current_code U s f (or_introl eq_refl)). Qed.
 
-Theorem reduce_iff_schema U s f :
-  fn_variadic f = false -> ctor_correct (reduce_check U s f) (reduce_schema U s f).
-Proof. intro H. apply (decided_correct _ _ _ (reduce_schema_b_iff U s f) (reduce_decided U s f H)). Qed.
-Theorem reduce_out_type_spec U s f :
-  fn_variadic f = false -> out_type_correct (reduce_check U s f) (reduce_schema U s f).
-Proof. intro H. apply (decided_correct _ _ _ (reduce_schema_b_iff U s f) (reduce_decided U s f H)). Qed.
+Theorem reduce_iff_schema_any R U s f :
+  variadic_ok R f -> ctor_correct (reduce_check_gen R U s f) (reduce_schema U s f).
+Proof. intro H. apply (decided_correct _ _ _ (reduce_schema_b_iff U s f) (reduce_decided R U s f H)). Qed.
+Theorem reduce_out_type_spec_any R U s f :
+  variadic_ok R f -> out_type_correct (reduce_check_gen R U s f) (reduce_schema U s f).
+Proof. intro H. apply (decided_correct _ _ _ (reduce_schema_b_iff U s f) (reduce_decided R U s f H)). Qed.
+Theorem reduce_iff_schema U s f : ctor_correct (reduce_check U s f) (reduce_schema U s f).
+Proof. exact (reduce_iff_schema_any current_code U s f (or_introl eq_refl)). Qed.
+Theorem reduce_out_type_spec U s f : out_type_correct (reduce_check U s f) (reduce_schema U s f).
+Proof. exact (reduce_out_type_spec_any current_code U s f (or_introl eq_refl)). Qed.
 
-Theorem repartition_iff_schema s f :
-  fn_variadic f = false -> ctor_correct (repartition_check s f) (repartition_schema s f).
-Proof. intro H. apply (decided_correct _ _ _ (repartition_schema_b_iff s f) (repartition_decided s f H)). Qed.
-Theorem repartition_out_type_spec s f :
-  fn_variadic f = false -> out_type_correct (repartition_check s f) (repartition_schema s f).
-Proof. intro H. apply (decided_correct _ _ _ (repartition_schema_b_iff s f) (repartition_decided s f H)). Qed.
+Theorem repartition_iff_schema_any R s f :
+  variadic_ok R f -> ctor_correct (repartition_check_gen R s f) (repartition_schema s f).
+Proof. intro H. apply (decided_correct _ _ _ (repartition_schema_b_iff s f) (repartition_decided R s f H)). Qed.
+Theorem repartition_out_type_spec_any R s f :
+  variadic_ok R f -> out_type_correct (repartition_check_gen R s f) (repartition_schema s f).
+Proof. intro H. apply (decided_correct _ _ _ (repartition_schema_b_iff s f) (repartition_decided R s f H)). Qed.
+Theorem repartition_iff_schema s f : ctor_correct (repartition_check s f) (repartition_schema s f).
+Proof. exact (repartition_iff_schema_any current_code s f (or_introl eq_refl)). Qed.
+Theorem repartition_out_type_spec s f : out_type_correct (repartition_check s f) (repartition_schema s f).
+Proof. exact (repartition_out_type_spec_any current_code s f (or_introl eq_refl)). Qed.
 
-Theorem writerfunc_iff_schema s f :
-  fn_variadic f = false -> fn_shard_named f = false ->
-  ctor_correct (writerfunc_check s f) (writerfunc_schema s f).
-Proof. intros H1 H2. apply (decided_correct _ _ _ (writerfunc_schema_b_iff s f) (writerfunc_decided s f H1 H2)). Qed.
-Theorem writerfunc_out_type_spec s f :
-  fn_variadic f = false -> fn_shard_named f = false ->
-  out_type_correct (writerfunc_check s f) (writerfunc_schema s f).
-Proof. intros H1 H2. apply (decided_correct _ _ _ (writerfunc_schema_b_iff s f) (writerfunc_decided s f H1 H2)). Qed.
+Theorem writerfunc_iff_schema_any R s f :
+  variadic_ok R f -> shard_ok R f ->
+  ctor_correct (writerfunc_check_gen R s f) (writerfunc_schema s f).
+Proof. intros H1 H2. apply (decided_correct _ _ _ (writerfunc_schema_b_iff s f) (writerfunc_decided R s f H1 H2)). Qed.
+Theorem writerfunc_out_type_spec_any R s f :
+  variadic_ok R f -> shard_ok R f ->
+  out_type_correct (writerfunc_check_gen R s f) (writerfunc_schema s f).
+Proof. intros H1 H2. apply (decided_correct _ _ _ (writerfunc_schema_b_iff s f) (writerfunc_decided R s f H1 H2)). Qed.
+Theorem writerfunc_iff_schema s f : ctor_correct (writerfunc_check s f) (writerfunc_schema s f).
+Proof. exact (writerfunc_iff_schema_any current_code s f (or_introl eq_refl) (or_introl eq_refl)). Qed.
+Theorem writerfunc_out_type_spec s f : out_type_correct (writerfunc_check s f) (writerfunc_schema s f).
+Proof. exact (writerfunc_out_type_spec_any current_code s f (or_introl eq_refl) (or_introl eq_refl)). Qed.
 
-(* ---------------------------------------------------------------- ReaderFunc *)
-(* the code as it is: only under the guard NumOut() = 2 *)
-Theorem readerfunc_iff_schema_guarded n f :
-  fn_numout f = 2%nat -> fn_variadic f = false -> fn_shard_named f = false ->
-  ctor_correct (readerfunc_check_gen false n f) (readerfunc_schema n f).
+Theorem readerfunc_iff_schema_any R n f :
+  variadic_ok R f -> shard_ok R f -> numout_ok R f ->
+  ctor_correct (readerfunc_check_gen R n f) (readerfunc_schema n f).
 Proof.
-  intros H0 H1 H2.
-  apply (decided_correct _ _ _ (readerfunc_schema_b_iff n f) (readerfunc_decided false n f H1 H2 (or_intror H0))).
+  intros H1 H2 H3.
+  apply (decided_correct _ _ _ (readerfunc_schema_b_iff n f) (readerfunc_decided R n f H1 H2 H3)).
 Qed.
-Theorem readerfunc_out_type_spec_guarded n f :
-  fn_numout f = 2%nat -> fn_variadic f = false -> fn_shard_named f = false ->
-  out_type_correct (readerfunc_check_gen false n f) (readerfunc_schema n f).
+Theorem readerfunc_out_type_spec_any R n f :
+  variadic_ok R f -> shard_ok R f -> numout_ok R f ->
+  out_type_correct (readerfunc_check_gen R n f) (readerfunc_schema n f).
 Proof.
-  intros H0 H1 H2.
-  apply (decided_correct _ _ _ (readerfunc_schema_b_iff n f) (readerfunc_decided false n f H1 H2 (or_intror H0))).
+  intros H1 H2 H3.
+  apply (decided_correct _ _ _ (readerfunc_schema_b_iff n f) (readerfunc_decided R n f H1 H2 H3)).
 Qed.
-(* with the proposed fix the guard on the number of results disappears *)
-Theorem readerfunc_iff_schema_fixed n f :
-  fn_variadic f = false -> fn_shard_named f = false ->
-  ctor_correct (readerfunc_check_gen true n f) (readerfunc_schema n f).
+Theorem readerfunc_iff_schema n f : ctor_correct (readerfunc_check n f) (readerfunc_schema n f).
 Proof.
-  intros H1 H2.
-  apply (decided_correct _ _ _ (readerfunc_schema_b_iff n f) (readerfunc_decided true n f H1 H2 (or_introl eq_refl))).
+  exact (readerfunc_iff_schema_any current_code n f (or_introl eq_refl) (or_introl eq_refl) (or_introl eq_refl)).
 Qed.
-Theorem readerfunc_out_type_spec_fixed n f :
-  fn_variadic f = false -> fn_shard_named f = false ->
-  out_type_correct (readerfunc_check_gen true n f) (readerfunc_schema n f).
+Theorem readerfunc_out_type_spec n f : out_type_correct (readerfunc_check n f) (readerfunc_schema n f).
 Proof.
-  intros H1 H2.
-  apply (decided_correct _ _ _ (readerfunc_schema_b_iff n f) (readerfunc_decided true n f H1 H2 (or_introl eq_refl))).
+  exact (readerfunc_out_type_spec_any current_code n f (or_introl eq_refl) (or_introl eq_refl) (or_introl eq_refl)).
 Qed.
 
 (* ---------------------------------------------------------------- Cogroup, unguarded part *)
